@@ -5,7 +5,8 @@ dimension alone only if everything the late validations ask for has been asked b
 here, in statement order and with the callees inlined, as step lists over the vocabulary of
 NixModel/Pure/LinkWrite.lean:
 
-    Dimension.link_data_array            (pre-checks, remove_link, DimensionLink.create_new incl. the index setter)
+    Dimension.link_data_array            (pre-checks incl. the file of the object, remove_link,
+                                          DimensionLink.create_new incl. the index setter)
     RangeDimension.link_data_array       (the above, then the ticks are deleted)
     Dimension.link_data_frame / RangeDimension.link_data_frame
     DataArray.append_range_dimension_using_self
@@ -220,6 +221,14 @@ def _remove_link_if_any(st, dimcls, where):
     return True
 
 
+def _same_file_test(st, obj):
+    """`if <obj>._h5group.group.file != self._h5group.group.file: raise ValueError(..)`: the test H5Group.create_link
+    makes of the object (in the middle of DimensionLink.create_new), asked up front"""
+    return isinstance(st, ast.If) and not st.orelse and len(st.body) == 1 and isinstance(st.body[0], ast.Raise) and \
+        isinstance(st.body[0].exc, ast.Call) and _u(st.body[0].exc.func) == "ValueError" and \
+        _u(st.test) == _E("%s._h5group.group.file != self._h5group.group.file" % obj)
+
+
 def _pairs(body, where):
     """statements with `msg = <helper>(..)` + `if msg is not None: raise` folded into ('call', helper text)"""
     out, i = [], 0
@@ -254,6 +263,8 @@ def _link_data_array(dimcls, linkcls, where):
             steps += create("DataArray")
         elif kind == "stmt" and s == _E("util.check_attr_type(index, Sequence)"):
             steps.append(".guard .isSequence")
+        elif kind == "stmt" and _same_file_test(st, "data_array"):
+            steps.append(".guard .sameFile")
         else:
             _fail(where, st)
     return steps, dimn, cidx, create
@@ -268,6 +279,8 @@ def _link_data_frame(dimcls, create, where):
                 _u(st.test) == _E("not 0 <= index < len(data_frame.columns)") and len(st.body) == 1 and \
                 isinstance(st.body[0], ast.Raise):
             steps.append(".guard .colInRange")
+        elif kind == "stmt" and _same_file_test(st, "data_frame"):
+            steps.append(".guard .sameFile")
         elif kind == "stmt" and _remove_link_if_any(st, dimcls, where):
             steps.append(".removeLinkIfAny")
         elif kind == "stmt" and s == _E("DimensionLink.create_new(self._file, self, self._h5group, data_frame, "
@@ -312,7 +325,10 @@ def _using_self(dacls, rcls, dimn, cidx, range_lda, where):
         elif kind == "stmt" and s == _E("rdim = RangeDimension.create_new(self, dim_index, None)"):
             steps.append(".createDim")
         elif kind == "stmt" and s == _E("rdim.link_data_array(self, index)"):
-            steps += range_lda
+            # the object handed over is `self`, the array that owns the descriptor `rdim` was just created in: the
+            # question "does the object live in the file of the descriptor" does not arise (no guard, and the hard
+            # link is `.createSelfLink`, which has nothing to refuse)
+            steps += [".createSelfLink" if x == ".createTargetLink" else x for x in range_lda if x != ".guard .sameFile"]
         elif kind == "stmt" and s == _E("if self.file.auto_update_timestamps:\n    self.force_updated_at()"):
             steps.append(".touchArray")
         elif kind == "stmt" and s == _E("return rdim"):
